@@ -77,7 +77,8 @@ pub fn gen_tower(prop: Prop, rng: &mut Rng, _thorough: bool) -> History {
                 allow_singular: true,
                 draw,
                 aligned_clip_paths: false,
-                layer_blend: BlendProfile::Destructive,
+                early_clip_pop: true,
+        layer_blend: BlendProfile::Destructive,
             }
         }
         Prop::C03 => {
@@ -99,7 +100,8 @@ pub fn gen_tower(prop: Prop, rng: &mut Rng, _thorough: bool) -> History {
                 allow_singular: true,
                 draw,
                 aligned_clip_paths: false,
-                layer_blend: BlendProfile::Uniform,
+                early_clip_pop: true,
+        layer_blend: BlendProfile::Uniform,
             }
         }
         Prop::C05 => {
@@ -122,7 +124,8 @@ pub fn gen_tower(prop: Prop, rng: &mut Rng, _thorough: bool) -> History {
                 allow_singular: false,
                 draw,
                 aligned_clip_paths: rng.chance(1, 4),
-                layer_blend: BlendProfile::Common,
+                early_clip_pop: true,
+        layer_blend: BlendProfile::Common,
             }
         }
         Prop::C06 => {
@@ -142,7 +145,8 @@ pub fn gen_tower(prop: Prop, rng: &mut Rng, _thorough: bool) -> History {
                 allow_singular: false,
                 draw,
                 aligned_clip_paths: false,
-                layer_blend: BlendProfile::Uniform,
+                early_clip_pop: true,
+        layer_blend: BlendProfile::Uniform,
             }
         }
         Prop::C18 => {
@@ -163,7 +167,8 @@ pub fn gen_tower(prop: Prop, rng: &mut Rng, _thorough: bool) -> History {
                 allow_singular: false,
                 draw,
                 aligned_clip_paths: false,
-                layer_blend: BlendProfile::Uniform,
+                early_clip_pop: true,
+        layer_blend: BlendProfile::Uniform,
             }
         }
     };
@@ -423,10 +428,11 @@ pub fn run_tower(prop: Prop, h: &History, st: &mut Stats) -> Outcome {
                 path_clip_used = true;
             }
             Op::PopClip => {
-                if let Some(Br::Clip) = brackets.last() {
+                // the most recently pushed clip, which need not be the innermost bracket
+                if let Some(bi) = brackets.iter().rposition(|b| matches!(b, Br::Clip)) {
                     run_all!(step, i);
                     clips.pop();
-                    brackets.pop();
+                    brackets.remove(bi);
                 }
             }
             Op::PushLayer { opacity, blend, plain } => {
@@ -473,7 +479,23 @@ pub fn run_tower(prop: Prop, h: &History, st: &mut Stats) -> Outcome {
                         let c = if cv.inside[p] { cbyte } else { 0 };
                         let k = cv.k.as_ref().map(|k| k[p]);
                         let zero = c == 0 || k == Some(0);
-                        if prop == Prop::C02 && !zero {
+                        if prop == Prop::C02 {
+                            // pixels the group never touched (and whose blend with a transparent
+                            // pixel is the destination itself) are outside the drawn shape too
+                            let untouched = group_px[p] == 0 && blend < 24 && kernel::blend_px(blend, 0, prev[p]) == prev[p];
+                            if !zero && !untouched {
+                                continue;
+                            }
+                            if obs[p] != prev[p] {
+                                return viol(
+                                    "c02.pop-layer-changed-outside",
+                                    i,
+                                    format!(
+                                        "pop_layer(opacity {}, blend {}): pixel ({},{}) is outside what was drawn into the layer (group pixel {:08x}, clip inside={} k={:?}) but changed {:08x} -> {:08x}",
+                                        opacity, BLEND_NAMES[blend as usize % 28], p as i32 % w, p as i32 / w, group_px[p], cv.inside[p], k, prev[p], obs[p]
+                                    ),
+                                );
+                            }
                             continue;
                         }
                         match kernel::judge(obs[p], prev[p], group_px[p], c, k, blend) {
